@@ -176,6 +176,9 @@ fn one_source(rep: &mut Report, rng: &mut Rng, setup: &Setup, store: &mut Annota
         return;
     }
     let expected = expected.unwrap();
+    if rep.samples.len() < 3 {
+        rep.sample(json!({"setup": sd, "source_side": from, "source_ranges": ranges, "expected_pieces": expected, "builders_returned": builders.len()}));
+    }
     rep.distinct(&format!("transposed/{}/sides{}", cls, setup.texts.len()));
     rep.count(&format!("transposed/{}/sides{}", cls, setup.texts.len()));
     // adding the returned annotations succeeds
